@@ -1,7 +1,8 @@
 ---------------------------- MODULE LangFile_Trace ----------------------------
 (* Binding F for C35: io.ndjson holds one record per enumerated file with     *)
 (* what the REAL tools did with its text:                                      *)
-(*   lines   : the file, as indices into the alphabet (as TLC generated it)    *)
+(*   lines   : the file, as indices into the alphabet (as TLC generated it), or *)
+(*   long/toks : for the long-section family, the token lines themselves       *)
 (*   lintOk  : lintFile(path, false) returned no error                         *)
 (*   after   : content of the path after that call   (lines of tokens)         *)
 (*   lint2Ok, after2 : the same for a second call on the result                *)
@@ -19,6 +20,7 @@ VARIABLES i, bad, cmis, agreeA, agreeF
 Log == ndJsonDeserialize("io.ndjson")
 N   == Len(Log)
 
+InFile(r) == IF r.long THEN r.toks ELSE FileOf(r.lines)
 SelfTestBase == 10000000       \* records with larger ids are the driver's deliberately corrupted copies
 SeqSet(s) == {s[x] : x \in 1..Len(s)}
 TabOf(t)  == [k \in {t[x].k : x \in 1..Len(t)} |-> t[CHOOSE x \in 1..Len(t) : t[x].k = k].v]
@@ -34,13 +36,16 @@ DupsReported(r, c) == (r.lintOk /\ WF(r) /\ c.ok) => \A k \in AtRisk(c) : Report
 
 Cause(f, c) == LET ih == IndentedHeader(f)
                    tv == c.ok /\ TrimVariantDup(c)
-               IN IF ih /\ tv THEN "indented-header+trim-variant-duplicate"
-                  ELSE IF ih THEN "indented-header"
-                  ELSE IF tv THEN "trim-variant-duplicate"
-                  ELSE "other"
+                   (* a run of more than 12 entries: sort routines change algorithm with the length *)
+                   lg == c.ok /\ \E x \in 1..Len(c.defs) : Cardinality({y \in 1..Len(c.defs) : c.defs[y].grp = c.defs[x].grp}) > 12
+               IN (IF ih /\ tv THEN "indented-header+trim-variant-duplicate"
+                   ELSE IF ih THEN "indented-header"
+                   ELSE IF tv THEN "trim-variant-duplicate"
+                   ELSE "other")
+                  \o (IF lg THEN "/section-longer-than-12" ELSE "")
 
 Failures(r) ==
-  LET f == FileOf(r.lines)
+  LET f == InFile(r)
       c == Compile(f)
   IN    (IF Untouched(r, f) THEN {} ELSE {"touched-on-failure/" \o Cause(f, c)})
    \cup (IF SameTable(r) THEN {} ELSE {(IF r.tout.ok THEN "table-changed/" ELSE "formatted-file-does-not-compile/") \o Cause(f, c)})
@@ -48,10 +53,10 @@ Failures(r) ==
    \cup (IF DupsReported(r, c) THEN {} ELSE {"duplicate-not-reported/" \o Cause(f, c)})
 
 (* model conformance *)
-CompileAgrees(r) == LET c == Compile(FileOf(r.lines)) IN
+CompileAgrees(r) == LET c == Compile(InFile(r)) IN
                     /\ c.ok = r.tin.ok
                     /\ c.ok => Table(c) = TabOf(r.tin.tab)
-LintAgrees(r, impl) == LET l == LintI(FileOf(r.lines), impl) IN
+LintAgrees(r, impl) == LET l == LintI(InFile(r), impl) IN
                  /\ l.ok = r.lintOk
                  /\ l.ok => (l.out = r.after /\ l.dups = DupSets(r))
 
